@@ -11,6 +11,7 @@ import (
 	"fmt"
 	"math/rand"
 	"os"
+	"strconv"
 	"sync"
 	"sync/atomic"
 	"syscall"
@@ -377,6 +378,9 @@ func main() {
 	n := r.N(72, 1500)
 	if r.Phase == "shim" {
 		n = r.N(96, 2400)
+	}
+	if v, err := strconv.Atoi(os.Getenv("VERIF_C01_N")); err == nil && v > 0 {
+		n = v // the race phase runs fewer cases (2-13x slower under the detector)
 	}
 	for i := 0; i < n; i++ {
 		if !r.Mine(i) {
